@@ -312,6 +312,19 @@ func entryRule(ctx *Ctx, r *Result, rule string, t *ValidatorTable) bool {
 		r.fail(rule, name+": empty list", ctx.P.Pos(t.Fn.Pos()), "no early rejection of an empty origin list")
 		ok = false
 	}
+	if t.Field == "Origins" {
+		// the converse: the element loop is entered only with a non-empty
+		// list — an empty but non-nil list must not slip through (it would
+		// publish an empty tree, i.e. allow every origin)
+		for _, pa := range t.Entry {
+			if pa.End == "return" || pa.End == "panic" {
+				continue
+			}
+			nonEmpty := pa.Val("bin:==(len:builtin.len(param:"+t.List+"), 0)") == -1
+			ok = r.check(nonEmpty, rule, name+": the loop is entered only with a non-empty list {"+t.exitDesc(pa)+"}", "",
+				"the origin list can be empty (for instance empty but non-nil) when the element loop is entered: no origin is required and an empty tree — allow all — is published", 1) && ok
+		}
+	}
 	return ok
 }
 
